@@ -1,20 +1,20 @@
 (* C15 generated obligation: Gen/UnicodeEntries.v holds, for every language's unicode.yaml / unicode-full.yaml, each
    entry's first code point and its replacement as a rule AST (dumped by the harness with the library's YAML parser).
-   [speaks_list] (Model/RuleAst.v) is decided here, inside Coq, and its meaning is a theorem (Proofs/RuleAstP.v): a
+   [speaks_items] (Model/RuleAst.v) is decided here, inside Coq, and its meaning is a theorem (Proofs/RuleAstP.v): a
    replacement that passes speaks at least one item whatever its conditions evaluate to. *)
 From MC Require Import Lib.Base Model.RuleAst Proofs.RuleAstP Gen.UnicodeEntries.
 Local Open Scope N_scope.
 (* characters that may be silent: spaces, invisible operators and format characters, private-use markers, the comma *)
 Definition may_be_silent (c : N) : bool :=
   in_ranges c [(0x20, 0x20); (0x2C, 0x2C); (0xA0, 0xA0); (0x2000, 0x200F); (0x2028, 0x202F); (0x205F, 0x2064); (0xE000, 0xF8FF)].
-Definition entry_ok (e : N * repls) : bool := speaks_list (snd e) || may_be_silent (fst e).
+Definition entry_ok (e : N * items) : bool := speaks_items (snd e) || may_be_silent (fst e).
 Lemma L_no_character_is_silenced : forallb (fun f => forallb entry_ok (snd f)) unicode_entries = true.
 Proof. vm_compute. reflexivity. Qed.
 
 (* ... hence: every entry of every table for a character that is not exempt speaks under every outcome of its
    conditions *)
 Theorem L_every_character_speaks : forall file entries c rs, In (file, entries) unicode_entries -> In (c, rs) entries ->
-  may_be_silent c = false -> forall s, (0 < fst (evals rs s))%nat.
+  may_be_silent c = false -> forall s, (0 < spoken (fst (tr_items rs s)))%nat.
 Proof.
   intros file entries c rs Hf He Hc s.
   pose proof (forallb_In _ _ _ L_no_character_is_silenced Hf) as H1. cbv beta in H1. cbn [snd] in H1.
